@@ -1,4 +1,5 @@
 import GixModel.Lemmas.C28
+import GixModel.Lemmas.C28Body
 /-
 C28 — Config edits change only what was edited.  PROPERTY THEOREMS ONLY.
 
@@ -17,10 +18,14 @@ table; it is tied to the real `gix_config::File` by edit histories in the harnes
   every event outside the span is unchanged. `remove_frame`: the removed block is the key's span
   plus at most the newline after and the whitespace before it.
 * `new_section_frame`, `remove_section_frame`, `rename_frame`.
-Not proved (see `C28_full`): that the span `key_and_value_range_by` computes is exactly the value
-events of the last occurrence of the key (so that no comment can be inside it), and that the
-serialized result parses back to the edited view; both are evaluated by the oracle on every step
-of every generated history (reparse by gitoxide and by git).
+* `body_edits_keep_comments`, `set_frame_items`, `remove_frame_items`, `loaded_bodies_well_formed`,
+  `history_bodies_well_formed`, `history_comments_preserved`: on the bodies the parser produces
+  (sequences of items) the span `key_and_value_range_by` computes IS the last item with the key,
+  so no comment is ever touched — over ALL edit histories.
+Not proved (see `C28_full`): that the serialized result parses back to the edited view (the
+print-then-parse direction of the grammar); evaluated by the oracle on every step of every
+generated history (reparse by gitoxide and by git). `set_existing_raw_value` (ValueMut) is outside
+the history theorems.
 -/
 namespace GixModel.Props.C28
 open GixModel GixModel.C26 GixModel.C27 GixModel.C28
@@ -166,9 +171,64 @@ theorem rename_frame (f f' : FileS) (name : Bytes) (sub : Option Bytes) (newName
       simp only [Outcome.ok.injEq] at h; subst h
       exact ⟨rfl, _, hd, hh, rfl⟩
 
+/-- On a well-formed body — every body of a loaded file is one (`loaded_bodies_well_formed`), and
+the calls keep them so (`history_bodies_well_formed`) — `set`, `push` and `remove` leave the body
+well formed and keep exactly its comments: the span they work on is the LAST item with the key
+(its name, the whitespace and `=` after it, its value events), which holds no comment. -/
+theorem body_edits_keep_comments (w : Ws) (nl : Bytes) (body : List Event) (key value : Bytes)
+    (ov : Option Bytes) (hw : WFb body) :
+    (WFb (setBody w nl body key value) ∧ commentsOf (setBody w nl body key value) = commentsOf body) ∧
+    (WFb (pushBody w nl body key ov) ∧ commentsOf (pushBody w nl body key ov) = commentsOf body) ∧
+    (∀ b, removeBody body key = some b → WFb b ∧ commentsOf b = commentsOf body) :=
+  ⟨setBody_step w nl body key value hw, pushBody_step w nl body key ov hw,
+    fun b hb => removeBody_step body b key hb hw⟩
+
+/-- `set` on a well-formed body, exactly: the key is absent and `set` pushes, or the LAST item with
+the key keeps name and separator and gets the one new value event. -/
+theorem set_frame_items (w : Ws) (nl : Bytes) (key value : Bytes) (is : List Item) (hok : ∀ i ∈ is, i.ok = true) :
+    (keyAndValueRange key (flatten is) = none ∧ (∀ it ∈ is, it.matches key = false)) ∨
+    (∃ sp : KeySplit key is, setBody w nl (flatten is) key value =
+      flatten (sp.pre ++ .kv sp.k sp.mid [.value (escapeValue value)] :: sp.post)) :=
+  setBody_items w nl key value is hok
+
+/-- `remove` on a well-formed body, exactly: the LAST item with the key goes, with the whitespace
+item before and the newline item after it when there are such. -/
+theorem remove_frame_items (pre : List Item) (k : Bytes) (mid vals : List Event) (post : List Item)
+    (hok : ∀ i ∈ pre ++ .kv k mid vals :: post, i.ok = true) :
+    removeInternal (flatten (pre ++ .kv k mid vals :: post)) (flatten pre).length
+        ((flatten pre).length + 1 + mid.length + vals.length) true =
+      flatten (dropWsEnd pre ++ dropNlHead post) :=
+  removeInternal_items pre k mid vals post hok
+
+/-- Every body of a file loaded from text is well formed (C26's parser emits items). -/
+theorem loaded_bodies_well_formed (bs : Bytes) (f : FileS) (h : load bs = some f) :
+    ∀ s ∈ f.sections, WFb s.body :=
+  load_wf h
+
+/-- Over ALL edit histories of in-scope calls (all but `set_existing_raw_value`), bodies stay
+well formed. -/
+theorem history_bodies_well_formed (ops : List Op) (f : FileS) (hs : ∀ op ∈ ops, op.inScope = true)
+    (hw : ∀ s ∈ f.sections, WFb s.body) : ∀ s ∈ (applyAll f ops).sections, WFb s.body :=
+  applyAll_wf ops f hs hw
+
+/-- Over ALL edit histories of in-scope calls without `remove_section`: every section that was
+there at the start keeps exactly its comments, in order, whatever is set, pushed, removed, renamed
+or added. -/
+theorem history_comments_preserved (bs : Bytes) (ops : List Op) (f : FileS) (hl : load bs = some f)
+    (hs : ∀ op ∈ ops, op.inScope = true) (hr : ∀ op ∈ ops, op.isRemoveSection = false) :
+    (applyAll f ops).comments.take f.sections.length = f.comments :=
+  (applyAll_comments ops f hs hr (load_wf hl)).2
+
+-- non-vacuity: a loaded file with comments, a five-call history
+example : ∃ f, load [91, 97, 93, 10, 35, 99, 10, 107, 61, 118, 32, 59, 100, 10, 106, 10] = some f ∧
+    (applyAll f [.set [97] none [107] [120], .push [97] none [109] (some [49]), .remove [97] none [106],
+      .newSection [98] none, .rename [97] none [99] none]).write =
+      [91, 99, 93, 10, 35, 99, 10, 107, 61, 120, 32, 59, 100, 10, 109, 61, 49, 10, 91, 98, 93, 10] := by
+  refine ⟨_, rfl, by decide +kernel⟩
+
 /-- The property in full (NOT proved): after any call that succeeds, serializing and re-parsing
-gives the view the call means, i.e. `view (load (write (apply f op))) = view (apply f op)`, and the
-span replaced by `set` / removed by `remove` holds no comment. Evaluated by the harness oracle. -/
+gives the view the call means, i.e. `view (load (write (apply f op))) = view (apply f op)`.
+Evaluated by the harness oracle. -/
 def C28_full : Prop :=
   ∀ f op f', apply f op = .ok f' → ∃ g, load f'.write = some g ∧ g.view = f'.view ∧ g.comments = f'.comments
 
